@@ -6,7 +6,7 @@
    `refines0 deg t L` : the model tree t of degree deg stands for the sorted map L (C03_Hist.v);
    `refines`         : ... and L has fewer than 2^31 items (the model's recursion fuel is then sufficient). *)
 From Coq Require Import ZArith List Lia Bool Sorting.Sorted.
-Require Import C03_Model C03_Spec C03_D C03_Ins C03_InsInv C03_Tree C03_Scan C03_ScanSpec C03_Hist C03_Steps C03_Refine C03_History C03_Cow C03_Monitor C03_Check.
+Require Import C03_Model C03_Spec C03_D C03_Ins C03_Sel C03_Inv C03_Tot C03_InsInv C03_Up C03_Tree C03_Scan C03_ScanSpec C03_Hist C03_Steps C03_Refine C03_History C03_Cow C03_Monitor C03_Heap C03_HeapLib C03_HeapIns C03_HeapRem C03_HeapTree C03_HeapWorld C03_HeapEx C03_Check.
 Import ListNotations.
 Open Scope Z_scope.
 
@@ -170,11 +170,134 @@ Theorem c03_mutable_for_isolated : forall h hs i r c a fresh, Own h hs -> nth_er
   forall j r' c' f, nth_error hs j = Some (r', c') -> i <> j ->
   abs f (fst (mutable_for h c a fresh)) r' = abs f h r'.
 Proof. exact mutable_for_isolated. Qed.
-(* PENDING (c03_clone_isolation at full strength): that the heap-level write functions of btree.go (beyond mutableFor:
-   mutableChild, split, insert, remove, growChildAndRemove with the shared free list) satisfy `write_by` and the
-   two structural side conditions of c03_write_keeps_ownership.  Until then the clause is carried by the three
-   theorems above plus the correspondence check on clone programs (handles are independent values; ownership
-   flags read through VerifShape are closed upwards). *)
+(* ---- layer H: the write path on a store of nodes, as btree.go does it (C03_Heap.v): mutableFor, mutableChild, split,
+   insert with maybeSplitChild, growChildAndRemove (steal left / steal right / merge), remove, root split and root
+   collapse, Clone (two fresh contexts), the shared free list (freeNode recycles only nodes owned by the context;
+   newNode may hand out a recycled node).  `habs h hd` is the functional tree the handle hd stands for in store h,
+   `hfp h hd` its footprint, `winv deg w ts` the invariant of a family w of handles standing for the functional
+   trees ts, `step_ok c A h h' A'`: every address either keeps its content or was free or a node of A owned by c,
+   what is written is owned by c, and A' consists of nodes of A and formerly free addresses. ---- *)
+
+(* abstraction, node level: node.insert / node.remove on the store do what iinsert / iremove do on the value *)
+Theorem c03_heap_node_insert : forall minI, (1 <= minI)%nat -> forall c fuel hh s a na n (it : item) n' r,
+  good_alloc s -> hp s a = Some na -> own na = c ->
+  abs (S hh) (hp s) a = Some n -> wf minI hh n -> StronglySorted klt (iflat (S hh) n) ->
+  iinsert fuel (maxI_of minI) n it = Some (n', r) ->
+  exists s', h_insert fuel (maxI_of minI) c s a it = Some (s', r) /\ ins_post c hh s a s' n'.
+Proof. exact h_insert_sim. Qed.
+Theorem c03_heap_node_remove : forall minI, (1 <= minI)%nat -> forall c fuel hh s a na n t n' out,
+  good_alloc s -> hp s a = Some na -> own na = c -> abs (S hh) (hp s) a = Some n ->
+  good minI hh n -> ok_rm minI n -> StronglySorted klt (iflat (S hh) n) -> pre_t hh n t ->
+  iremove fuel minI n t = Some (n', out) ->
+  exists s', h_remove fuel minI c s a t = Some (s', out) /\ node_post c hh s a s' n'.
+Proof. exact h_remove_sim. Qed.
+(* abstraction, tree level: ReplaceOrInsert / Delete / DeleteMin / DeleteMax through a handle *)
+Theorem c03_heap_insert_abstraction : forall deg, (2 <= deg)%nat -> forall s hd (it : item) t h t' out,
+  good_alloc s -> habs (hp s) hd = Some t -> tinv deg h t -> (S h < IFUEL)%nat ->
+  itree_insert deg t it = Some (t', out) ->
+  exists s' hd', h_replace_or_insert deg s hd it = Some (s', hd', out) /\ habs (hp s') hd' = Some t' /\
+    hctx hd' = hctx hd /\ (exists r n, hroot hd' = Some r /\ hp s' r = Some n /\ own n = hctx hd) /\ good_alloc s' /\
+    step_ok (hctx hd) (hfp (hp s) hd) (hp s) (hp s') (hfp (hp s') hd').
+Proof. exact h_roi_sim. Qed.
+Theorem c03_heap_delete_abstraction : forall deg, (2 <= deg)%nat -> forall s hd (r : irm) t h t' out,
+  good_alloc s -> habs (hp s) hd = Some t -> tinv deg h t -> (2 * h + 2 <= IFUEL)%nat ->
+  itree_delete deg t r = Some (t', out) ->
+  exists s' hd', h_delete deg s hd r = Some (s', hd', out) /\ habs (hp s') hd' = Some t' /\
+    hctx hd' = hctx hd /\ good_alloc s' /\
+    step_ok (hctx hd) (hfp (hp s) hd) (hp s) (hp s') (hfp (hp s') hd').
+Proof. exact h_delete_sim. Qed.
+
+(* one operation (Clone, ReplaceOrInsert, Delete, DeleteMin, DeleteMax) on a family of handles: it returns what the functional family
+   returns, the invariant is kept, and every handle other than the one operated on keeps its value *)
+Theorem c03_heap_step : forall deg, (2 <= deg)%nat -> forall w ts o ts' out, winv deg w ts ->
+  f_step deg ts o = Some (ts', out) -> (forall t', In t' ts' -> small_t t') ->
+  exists w', w_step_h deg w o = Some (w', out) /\ winv deg w' ts' /\
+    (forall j hj, j <> target o -> nth_error (whs w) j = Some hj ->
+       nth_error (whs w') j = Some hj /\ habs (hp (wst w')) hj = habs (hp (wst w)) hj).
+Proof. exact w_step_sim. Qed.
+(* every history, from any family satisfying the invariant, and from the empty tree *)
+Theorem c03_heap_history : forall deg, (2 <= deg)%nat -> forall ops w ts ts' outs, winv deg w ts ->
+  f_run deg ts ops = Some (ts', outs) -> f_small deg ts ops ->
+  exists w', h_run deg w ops = Some (w', outs) /\ winv deg w' ts'.
+Proof. exact h_history. Qed.
+Theorem c03_heap_history_from_empty : forall deg, (2 <= deg)%nat -> forall ops ts' outs,
+  f_run deg [iempty] ops = Some (ts', outs) -> f_small deg [iempty] ops ->
+  exists w', h_run deg world0 ops = Some (w', outs) /\ winv deg w' ts'.
+Proof. exact h_history_from_empty. Qed.
+Theorem c03_heap_invariant_initial : forall deg, winv deg world0 [iempty].
+Proof. exact winv0. Qed.
+(* what the invariant gives: each handle stands for its functional tree, which stands for a sorted map *)
+Theorem c03_heap_abstraction : forall deg w ts i hd, winv deg w ts -> nth_error (whs w) i = Some hd ->
+  exists t L, nth_error ts i = Some t /\ habs (hp (wst w)) hd = Some t /\ refines deg t L.
+Proof. exact winv_abs. Qed.
+
+(* clone isolation at full strength: in every family reachable by Clone / ReplaceOrInsert / Delete / DeleteMin /
+   DeleteMax (c03_heap_history), an operation through one handle leaves every other handle, and the functional tree
+   it stands for, unchanged *)
+Theorem c03_clone_isolation : forall deg, (2 <= deg)%nat -> forall w ts o ts' out w',
+  winv deg w ts -> f_step deg ts o = Some (ts', out) -> (forall t', In t' ts' -> small_t t') ->
+  w_step_h deg w o = Some (w', out) ->
+  forall j hj, j <> target o -> nth_error (whs w) j = Some hj ->
+    nth_error (whs w') j = Some hj /\ habs (hp (wst w')) hj = habs (hp (wst w)) hj.
+Proof. exact h_write_isolated. Qed.
+(* ownership: a node owned by the context of one handle occurs in (is reachable from) no other handle's tree; for a
+   family in which every handle has a root this is the invariant Own of C03_Cow.v *)
+Theorem c03_heap_ownership : forall deg w ts i j hi hj x n, winv deg w ts ->
+  nth_error (whs w) i = Some hi -> nth_error (whs w) j = Some hj -> i <> j ->
+  In x (hfp (hp (wst w)) hj) -> hp (wst w) x = Some n -> own n <> hctx hi.
+Proof. exact winv_ownership. Qed.
+Theorem c03_heap_ownership_reach : forall deg w ts i j hi hj r' a n, winv deg w ts ->
+  nth_error (whs w) i = Some hi -> nth_error (whs w) j = Some hj -> i <> j -> hroot hj = Some r' ->
+  reach (hp (wst w)) r' a -> hp (wst w) a = Some n -> own n <> hctx hi.
+Proof. exact winv_owned_unreachable. Qed.
+Theorem c03_heap_Own : forall deg w ts (hs : list handle), winv deg w ts ->
+  Forall2 (fun hd p => hroot hd = Some (fst p) /\ hctx hd = snd p) (whs w) hs -> Own (hp (wst w)) hs.
+Proof. exact winv_Own. Qed.
+(* after ReplaceOrInsert the root belongs to the handle's context (see c03_heap_insert_abstraction); after Clone the two
+   handles get the contexts wctx w and wctx w + 1, which own nothing - two consequences the correspondence check also
+   reads off the implementation's nodes (ownership flags of VerifShape) *)
+Theorem c03_heap_clone_owns_nothing : forall deg w ts x n, winv deg w ts -> hp (wst w) x = Some n ->
+  own n <> wctx w /\ own n <> S (wctx w).
+Proof. exact clone_owns_nothing. Qed.
+(* the free list never hands out a node still in the tree of any handle *)
+Theorem c03_free_list_sound : forall deg w ts j hj, winv deg w ts -> nth_error (whs w) j = Some hj ->
+  ~ In (fst (new_addr (wst w))) (hfp (hp (wst w)) hj).
+Proof. exact new_addr_unreachable. Qed.
+Theorem c03_free_list_unreachable : forall deg w ts j hj a, winv deg w ts -> nth_error (whs w) j = Some hj ->
+  In a (fl (wst w)) -> ~ In a (hfp (hp (wst w)) hj).
+Proof. exact free_list_unreachable. Qed.
+(* no sharing inside one tree comes for free: a store tree whose value is shaped, has no empty node below the top and a
+   strictly sorted in-order list visits every address once *)
+Theorem c03_footprint_nodup : forall m, (1 <= m)%nat -> forall hh h a t, abs (S hh) h a = Some t -> shaped hh t -> occ m hh t ->
+  StronglySorted klt (iflat (S hh) t) -> NoDup (addrs (S hh) h a).
+Proof. exact fp_nodup. Qed.
+(* non-vacuity: Clone taken exactly when the root is full, then writes on both sides; released nodes are reused *)
+Theorem c03_heap_demo_clone_at_full_root :
+  match h_run 2 world0 prog1, f_run 2 [iempty] prog1 with
+  | Some (w, outs), Some (ts, outs') =>
+      map (habs (hp (wst w))) (whs w) = map Some ts /\ outs = outs' /\
+      map itree_list ts = [[(25,125); (30,130); (40,140)]; [(5,105); (10,110); (15,115); (20,777)]]
+  | _, _ => False
+  end.
+Proof. exact prog1_run. Qed.
+Theorem c03_heap_demo_small : f_small 2 [iempty] prog1.
+Proof. exact prog1_small. Qed.
+Theorem c03_heap_demo_recycle :
+  match h_run 2 world0 prog2a with
+  | Some (w1, _) =>
+      match h_run 2 w1 prog2b, f_run 2 [iempty] (prog2a ++ prog2b) with
+      | Some (w2, _), Some (ts, _) =>
+          (length (fl (wst w1)) = 6 /\ nxt (wst w2) = nxt (wst w1) /\ length (fl (wst w2)) = 1)%nat /\
+          map (habs (hp (wst w2))) (whs w2) = map Some ts /\
+          map itree_list ts = [[(10,110); (11,111); (12,112); (21,121); (22,122); (23,123); (24,124); (25,125); (26,126); (27,127)]]
+      | _, _ => False
+      end
+  | None => False
+  end.
+Proof. exact prog2_recycles. Qed.
+(* Not modelled at layer H: Clear / reset, the reads (they do not write the store), and the concurrent use of a tree and
+   its clone from different goroutines (FreeList has its own mutex in btree.go; here the family is operated on one
+   operation at a time). *)
 
 (* ------------------------------------------------------------------------------------------------------------
    5. The correspondence check is sound: whatever the driver accepts satisfies the monitor
@@ -243,6 +366,26 @@ Print Assumptions c03_clone_establishes_ownership.
 Print Assumptions c03_mutable_for_discipline.
 Print Assumptions c03_mutable_for_same_tree.
 Print Assumptions c03_mutable_for_isolated.
+Print Assumptions c03_heap_node_insert.
+Print Assumptions c03_heap_node_remove.
+Print Assumptions c03_heap_insert_abstraction.
+Print Assumptions c03_heap_delete_abstraction.
+Print Assumptions c03_heap_step.
+Print Assumptions c03_heap_history.
+Print Assumptions c03_heap_history_from_empty.
+Print Assumptions c03_heap_invariant_initial.
+Print Assumptions c03_heap_abstraction.
+Print Assumptions c03_clone_isolation.
+Print Assumptions c03_heap_ownership.
+Print Assumptions c03_heap_ownership_reach.
+Print Assumptions c03_heap_Own.
+Print Assumptions c03_heap_clone_owns_nothing.
+Print Assumptions c03_free_list_sound.
+Print Assumptions c03_free_list_unreachable.
+Print Assumptions c03_footprint_nodup.
+Print Assumptions c03_heap_demo_clone_at_full_root.
+Print Assumptions c03_heap_demo_small.
+Print Assumptions c03_heap_demo_recycle.
 Print Assumptions c03_case_sound.
 Print Assumptions c03_demo_history.
 Print Assumptions c03_demo_small.
